@@ -231,6 +231,12 @@ func checkEnc(scen string, in EncIn) []*mc.Violation {
 func lineValues(maxLines int) []string {
 	lines := []string{"a", "", " ind", "b c", "\ttab", "#c", "k: v"}
 	sym := []string{"0", "1", "2", "3", "4", "5", "6"}
+	for i, t := range gen.AuditStrings(gen.OneLine, 2) { // alphabet audit: lines made of literals a change introduced
+		if strings.TrimSpace(t) != "" && strings.TrimRight(t, " \t") == t && t != "." {
+			lines = append(lines, t)
+			sym = append(sym, string(rune('7'+i)))
+		}
+	}
 	var out []string
 	seqs := gen.AllStrings(sym, maxLines)
 	for _, s := range seqs {
@@ -300,6 +306,9 @@ func Run(r *mc.Run) {
 
 	// reader-produced paragraphs
 	var docs []gen.DDoc
+	for _, f := range gen.D822AuditFields() {
+		docs = append(docs, gen.DDoc{gen.DPara{f}})
+	}
 	for _, f := range gen.D822FieldShapes("A", r.Pick(2, 3)) {
 		docs = append(docs, gen.DDoc{gen.DPara{f}})
 	}
